@@ -300,7 +300,66 @@ def extra_checks(tier, seed):
     out.append({"name": "C03/coverage/every-implemented-command-has-a-table-row", "status": "failed" if missing else "discharged",
                 "cases": m, "kind": "exhaustive", "seconds": time.time() - t0, "detail": "; ".join(missing[:10]),
                 "witness": {"missing": missing}, "replay": {"missing": missing}})
+    out.append(batch_check(tier, seed))
     return out
+
+
+# ----------------------------------------------------------------------------- bounded stand-in: commands held in a batch
+# The proof units construct one command from a state in which nothing was constructed before and read its frame at once.
+# "The frame put on the wire" is read later - typically after other commands were built or decoded.  BOUNDED, native: for
+# every table row x case three commands with independently drawn arguments are built by the real constructors, kept, and
+# only then compared with the frame the TABLE gives for each one's own arguments (the same oracle as the proof units; a
+# constructor that hands the same mutable frame object to several commands shows up here).
+class _NativeCtx:
+    def __init__(self, rng):
+        self.rng = rng
+
+    def int(self, name, lo, hi):
+        return self.rng.choice([lo, hi, self.rng.randint(lo, hi), self.rng.randint(lo, hi)])
+
+    def new(self, cls, **fields):
+        return cls(*fields.values())
+
+
+def batch_check(tier, seed):
+    import random
+    t0 = time.time()
+    rng = random.Random(3000 + int(seed or 0))
+    bad = []
+    n = skipped = 0
+    for module, rows in T.TABLES.items():
+        for row in rows:
+            cls = live_class(module, row["name"])
+            if cls is None or row["u"] == "row":
+                continue
+            try:
+                row_cases = list(cases(row))
+            except Exception:       # noqa: BLE001
+                skipped += 1
+                continue
+            for cname, build in row_cases:
+                held = []
+                try:
+                    for _ in range(3):
+                        args, kwargs, want, width = build(_NativeCtx(rng))
+                        held.append((cls(*args, **kwargs), args, int(want), width))
+                except Exception:       # noqa: BLE001  (a case the native context cannot build is not this check's business)
+                    skipped += 1
+                    continue
+                for obj, args, want, width in held:
+                    n += 1
+                    f = obj.frame
+                    if len(f) != width or f.as_integer != want:
+                        bad.append("%s.%s/%s: built with %r and read after %d more commands of its class were built: frame "
+                                   "%d bits 0x%x, the table gives %d bits 0x%x"
+                                   % (module.rsplit(".", 1)[-1], row["name"], cname, tuple(getattr(a, "__dict__", a) for a in args),
+                                      len(held) - 1, len(f), f.as_integer, width, want))
+    return {"name": "C03/bounded/frames-of-commands-held-in-a-batch-stay-their-own", "status": "failed" if bad else "discharged",
+            "cases": n, "kind": "bounded-native", "seconds": time.time() - t0,
+            "detail": bad[0][:500] if bad else "%d commands built three at a time per table row and case, frames read afterwards "
+                                               "(%d cases not buildable natively, skipped)" % (n, skipped),
+            "witness": {"first": bad[:1]}, "replay": {"how": "build the three commands with the real constructors, then read .frame",
+                                                      "failing": bad[:20], "total_failing": len(bad)}}
 
 
 def unverified_list():
